@@ -9,6 +9,7 @@ use elliptic_curve::hash2curve::ExpandMsg;
 use std::collections::{BTreeMap, HashSet};
 use zkryptium::bbsplus::ciphersuites::BbsCiphersuite;
 use zkryptium::bbsplus::commitment::BlindFactor;
+use zkryptium::bbsplus::generators::Generators;
 use zkryptium::bbsplus::keys::BBSplusPublicKey;
 use zkryptium::keys::pair::KeyPair;
 use zkryptium::schemes::algorithms::BBSplus;
@@ -224,6 +225,30 @@ where
     }
     monitors(h, "blind_proofs", &tb, &bw, &bencs);
 
+    // (h) repeated / unsorted disclosed indexes (legal input, de-duplicated by proof_gen): the number of
+    // blindings and their roles must be those of the de-duplicated set -- every hidden message stays blinded
+    for idx in [vec![1usize, 1], vec![0, 0, 2], vec![3, 1, 3], vec![2, 2, 2, 2], vec![1, 0, 1, 0]] {
+        let mut set = idx.clone();
+        set.sort();
+        set.dedup();
+        let hid_pos: Vec<usize> = (0..l).filter(|i| !set.contains(i)).collect();
+        let hid: Vec<Scalar> = hid_pos.iter().map(|&i| ms[i].value).collect();
+        let (p, draws) = proofgen::<CS>(h, &pk, &sb, hdr.as_deref(), None, Some(&msgs), Some(&idx), vec![]);
+        let id = h.last();
+        h.stat("C07.dup_indexes");
+        if let Some(p) = p.ok() {
+            let pb = p.to_bytes();
+            h.expect(pb.len() == 272 + 32 * hid.len(), "C07.dup_len", "proof over repeated disclosed indexes has the wrong number of responses", &[id]);
+            if pb.len() == 272 + 32 * hid.len() {
+                let t = proof_transcript(&pb, &e, &hid, &draws);
+                let ok_roles = draws.len() == 5 + hid.len()
+                    && t.blindings[0].to_be_bytes()[..] == draws[2].value[..]
+                    && (0..hid.len()).all(|j| t.blindings[1 + j].to_be_bytes()[..] == draws[5 + j].value[..]);
+                h.expect(ok_roles, "C07.roles_dup_indexes", &format!("disclosed indexes {:?}: a hidden message is not blinded by its own fresh scalar", idx), &[id]);
+                h.expect(t.blindings.iter().all(|b| *b != Scalar::ZERO), "C07.unblinded", &format!("disclosed indexes {:?}: a response equals secret * challenge (zero blinding)", idx), &[id]);
+            }
+        }
+    }
     // (g) other shapes: U in 0..=3, M in 0..=2 (a reuse that only happens for one count)
     for l in [0usize, 1, 2, 3, 11, 12, 16, 17, 28, 33, 64] {
         let msgs = rand_msgs(h, l);
@@ -597,7 +622,52 @@ where
     } else {
         c11_dual::<zkryptium::bbsplus::ciphersuites::Bls12381Shake256>(h)
     }
+    prepare_parameters_cases::<CS>(h);
     let _ = std::marker::PhantomData::<CS>;
+}
+
+/// the public helper `prepare_parameters`: for every api id (absent, empty, the suite's, custom) the message
+/// generators and the blind generators are the two families `create(n, api)` and `create(m, "BLIND_" || api)`,
+/// disjoint and without repetition; absent = empty
+fn prepare_parameters_cases<CS: BbsCiphersuite>(h: &mut H)
+where
+    CS::Expander: for<'a> ExpandMsg<'a>,
+{
+    use bls12_381_plus::group::Curve;
+    let msgs = rand_msgs(h, 2);
+    let cmsgs = rand_msgs(h, 1);
+    let blind = [7u8; 32];
+    let custom = b"some other api".to_vec();
+    let apis: Vec<(&str, Option<Vec<u8>>)> = vec![("none", None), ("empty", Some(vec![])), ("blind_api", Some(CS::API_ID_BLIND.to_vec())), ("custom", Some(custom))];
+    let mut outs: Vec<Option<(Vec<Scalar>, Vec<Vec<u8>>)>> = Vec::new();
+    for (nm, api) in &apis {
+        for (gn, bgn) in [(3usize, 2usize), (1, 1), (4, 4)] {
+            let o = prepparams::<CS>(h, Some(&msgs), Some(&cmsgs), gn, bgn, Some(&blind), api.as_deref());
+            let id = h.last();
+            h.stat(&format!("C11.prepare_parameters.{}", nm));
+            match o.ok() {
+                Some((ms, gs)) => {
+                    let enc: Vec<Vec<u8>> = gs.iter().map(|g| g.to_affine().to_compressed().to_vec()).collect();
+                    let set: std::collections::BTreeSet<&Vec<u8>> = enc.iter().collect();
+                    h.expect(set.len() == enc.len() && enc.len() == gn + bgn, "C11.prepare_parameters_distinct", &format!("prepare_parameters(api {}): message and blind generators are not {} distinct points", nm, gn + bgn), &[id]);
+                    let a = api.clone().unwrap_or_default();
+                    let g1 = Generators::create::<CS>(gn, Some(&a)).values;
+                    let g2 = Generators::create::<CS>(bgn, Some(&[b"BLIND_".to_vec(), a.clone()].concat())).values;
+                    let want: Vec<Vec<u8>> = g1.iter().chain(g2.iter()).map(|g| g.to_affine().to_compressed().to_vec()).collect();
+                    h.expect(enc == want, "C11.prepare_parameters_families", &format!("prepare_parameters(api {}): generators are not create(n, api) followed by create(m, BLIND_ || api)", nm), &[id]);
+                    h.expect(ms.len() == msgs.len() + 1 + cmsgs.len(), "C11.prepare_parameters_scalars", "prepare_parameters: wrong number of scalars", &[id]);
+                    if gn == 3 { outs.push(Some((ms, enc))); }
+                }
+                None => {
+                    h.expect(false, "C11.prepare_parameters_err", "prepare_parameters failed on valid input", &[id]);
+                    if gn == 3 { outs.push(None); }
+                }
+            }
+        }
+    }
+    if outs.len() >= 2 {
+        h.expect(outs[0] == outs[1], "C11.prepare_parameters_none_empty", "prepare_parameters: absent api id differs from the empty one", &[]);
+    }
 }
 
 pub fn corpus<CS: BbsCiphersuite>(_h: &mut H)
